@@ -65,6 +65,17 @@ def decoy_graph(n, edges):
                     seen.add(y); st.append(y)
         return len(seen) == n
     f0 = frames(edges)
+    if n > 5:
+        # too many graphs to search: drop the bond to the lowest neighbour of every anchor and bond a non-neighbour instead
+        es = set((min(a, b), max(a, b)) for a, b in edges)
+        for a, (n1, n2) in f0.items():
+            others = [x for x in range(n) if x != a and (min(a, x), max(a, x)) not in es]
+            if others:
+                es.discard((min(a, n1), max(a, n1)))
+                es.add((min(a, others[-1]), max(a, others[-1])))
+        es = sorted(es)
+        f1 = frames(es)
+        return es if any(a in f1 and f1[a] != f0[a] for a in f0) else None
     pairs = list(itertools.combinations(range(n), 2))
     best = None
     for m in range(n - 1, min(len(pairs), n + 1) + 1):
